@@ -6,6 +6,7 @@
 import SqlizeModel.Proofs.Textual
 import SqlizeModel.Proofs.DiffPlain
 import SqlizeModel.Proofs.SpecSchema
+import SqlizeModel.Proofs.EndToEndFk
 
 namespace Sqlize
 open Spec
@@ -178,7 +179,6 @@ theorem schema_up_vocab (g : Globals) (hg : g.dialect = .mysql) (hio : g.ignoreO
     (hpo : old.all Stmt.plainOpts = true) (hpn : new.all Stmt.plainOpts = true)
     (heo : execAll rc [] old = some dbO) (hen : execAll rc [] new = some dbN)
     (hnm : ∀ tb ∈ dbO ++ dbN, tb.name ≠ "")
-    (hnofk : ∀ tb ∈ dbO ++ dbN, tb.fks = [])
     (hboth : ∀ tbO ∈ dbO, ∀ tbN ∈ dbN, tbO.name = tbN.name →
       (∀ n ∈ tbN.colNames ++ tbO.colNames, n ≠ "") ∧ tbO.pk = tbN.pk)
     (d : Migration) (out : List (List Stmt)) (hd : loadAndDiff g old new = .ok d) (hU : d.migrationUp g = .ok (d, out)) :
@@ -242,25 +242,32 @@ theorem schema_up_vocab (g : Globals) (hg : g.dialect = .mysql) (hio : g.ignoreO
       rw [his] at his2
       have e3 := Except.ok.inj his2
       subst e3
-      -- no foreign-key statement: neither side has a key
-      obtain ⟨td3, h31, h32, hact3, _, ⟨hfe, _⟩, _, _⟩ := elems_end_to_end g hg rc old new dbO dbN ho hn heo hen d hd td2.name tbO tbN hfO hfN
+      -- the key statements: ADD CONSTRAINT / DROP FOREIGN KEY on this table
+      obtain ⟨td3, h31, h32, _, hfkall, _, _⟩ := fks_with_drops_end_to_end g hg rc old new dbO dbN ho hn heo hen d hd td2.name tbO tbN hfO hfN
       have := huniq td3 h31 td2 htd h32
       subst this
-      have hfs : td3.migrationForeignKeyUp dc = [] := by
-        unfold Table.migrationForeignKeyUp
-        rw [hact3]
-        apply walkFk_empty
-        rw [hfe, hnofk tbN (List.mem_append_right _ (mem_of_find hfN)), hnofk tbO (List.mem_append_left _ (mem_of_find hfO))]
-        rfl
-      rw [hss, hfs, List.append_nil] at hsm
-      exact hv s hsm
+      rw [hss] at hsm
+      rcases List.mem_append.mp hsm with h | h
+      · exact hv s h
+      · obtain ⟨ht', hsome⟩ := (hfkall dc).2 s h
+        have htne' : (td3.name != "") = true := by simpa using htne
+        cases s with
+        | addFk t2 name col rt rcol =>
+          have ht2 : t2 = td3.name := ht'
+          subst ht2
+          simp [Stmt.vocab, Stmt.elemSafe, Stmt.colSafe, Stmt.table, htne', Stmt.textual, Stmt.plainOpts]
+        | dropFk t2 name =>
+          have ht2 : t2 = td3.name := ht'
+          subst ht2
+          simp [Stmt.vocab, Stmt.elemSafe, Stmt.colSafe, Stmt.table, htne', Stmt.textual, Stmt.plainOpts]
+        | _ => simp [fkStmt] at hsome
     | none =>
       have hnew : dbO.has td'.name = false := by
         cases h : dbO.has td'.name with
         | false => rfl
         | true => exact absurd ((has_iff dbO td'.name).mp h) ((find_none_iff dbO td'.name).mp hfO)
-      obtain ⟨td2, h21, h22, _, cs2, is2, hcs2, his2, hfs2, _, hv, _⟩ := created_table_spec g hg rc old new dbO dbN ho hn hpo hpn heo hen d hd
-        td'.name tbN hfN hnew (hnofk tbN (List.mem_append_right _ (mem_of_find hfN)))
+      obtain ⟨td2, h21, h22, _, cs2, is2, fs2, hcs2, his2, hfs2, _, hv, _⟩ := created_table_spec g hg rc old new dbO dbN ho hn hpo hpn heo hen d hd
+        td'.name tbN hfN hnew
       have := huniq td2 h21 td' htd h22
       subst this
       rw [hcs] at hcs2
@@ -270,7 +277,7 @@ theorem schema_up_vocab (g : Globals) (hg : g.dialect = .mysql) (hio : g.ignoreO
       rw [his] at his2
       have e3 := Except.ok.inj his2
       subst e3
-      rw [hss, hfs2, List.append_nil] at hsm
+      rw [hss, hfs2] at hsm
       exact hv htne s hsm
   | none =>
     have hnotN : td'.name ∉ mn.tblNames := by rw [← hNn]; exact (find_none_iff dbN td'.name).mp hfN
